@@ -345,7 +345,7 @@ def run_harness(name, th, tier, use_memo=True):
 # counterexample extraction and native replay
 # ------------------------------------------------------------------------------------------------
 
-def extract_values(work_out, prop, unwind, uws, default_checks, timeout=1800, mem_gb=24):
+def extract_values(work_out, prop, unwind, uws, default_checks, timeout=1800, mem_gb=24, first_failure=False):
     """re-run CBMC for the single failing property with --trace --json-ui; return the kani::any() values"""
     # no --slice-formula here: slicing drops the nondet assignments outside the property's cone of influence from the
     # trace, and the native replay needs *every* kani::any() value in execution order
@@ -355,7 +355,11 @@ def extract_values(work_out, prop, unwind, uws, default_checks, timeout=1800, me
         cmd += ["--unwind", str(unwind)]
     if uws:
         cmd += ["--unwindset", ",".join("%s:%d" % (a, b) for a, b in uws)]
-    cmd += ["--property", prop, "--trace", "--json-ui", work_out]
+    if first_failure:
+        # unwinding assertions are created during symbolic execution and cannot be selected with --property
+        cmd += ["--stop-on-fail", "--trace", "--json-ui", work_out]
+    else:
+        cmd += ["--property", prop, "--trace", "--json-ui", work_out]
     try:
         p = subprocess.run(cmd, stdout=subprocess.PIPE, stderr=subprocess.DEVNULL, text=True, env=kdrive.ENV,
                            timeout=timeout, preexec_fn=kdrive._limits(mem_gb))
@@ -364,6 +368,8 @@ def extract_values(work_out, prop, unwind, uws, default_checks, timeout=1800, me
         return None, "trace extraction failed: %s" % e
     vals = []
     for item in js:
+        if first_failure and isinstance(item, dict) and "trace" in item and "result" not in item:
+            item = {"result": [dict(item, property=prop)]}
         if isinstance(item, dict) and "result" in item:
             for pr in item["result"]:
                 if pr.get("property") != prop or "trace" not in pr:
@@ -431,9 +437,13 @@ def triage_failure(name, res, th, prop_id):
     failed = res.get("failed", [])
     bound = [c for c in failed if is_bound_failure(c)]
     real = [c for c in failed if not is_bound_failure(c)]
-    if bound and not real:
-        return [{"kind": "inconclusive", "why": "bound too small: " + "; ".join(
-            "%s %s:%s" % (c["description"], c["file"], c["line"]) for c in bound[:3])}]
+    bound_only = bool(bound and not real)
+    bound_why = "bound too small: " + "; ".join("%s %s:%s" % (c["description"], c["file"], c["line"]) for c in bound[:3])
+    if bound_only:
+        # A loop ran past its asserted bound. Usually the bound is simply too small for this tree (inconclusive); but the
+        # solver's inputs that drive the loop that far are a concrete run like any other: if the harness' own assertions fail
+        # on them natively (e.g. an over-long input that must be refused is hashed instead), that is a confirmed violation.
+        real = bound[:1]
     bins, err = build_replay(th)
     if bins is None:
         return [{"kind": "inconclusive", "why": "replay binary does not build: " + err[-400:]}]
@@ -457,11 +467,11 @@ def triage_failure(name, res, th, prop_id):
         if c["description"] in seen_msgs:
             continue
         seen_msgs.add(c["description"])
-        prop = locate_property(work_out, c)
+        prop = c["property"] if bound_only else locate_property(work_out, c)
         if prop is None:
             outs.append({"kind": "inconclusive", "why": "failing check not found in table-mode build", "check": c["description"]})
             continue
-        vals, e = extract_values(work_out, prop, res["unwind"], uws, res["default_checks"])
+        vals, e = extract_values(work_out, prop, res["unwind"], uws, res["default_checks"], first_failure=bound_only)
         if vals is None:
             outs.append({"kind": "inconclusive", "why": e, "check": c["description"]})
             continue
@@ -478,9 +488,14 @@ def triage_failure(name, res, th, prop_id):
         rec["native"] = rp
         json.dump(rec, open(rfile, "w"), indent=1)
         reproduced = [p for p, o in rp.items() if o.get("exit") == 0]
+        if bound_only and not reproduced:
+            outs.append({"kind": "inconclusive", "why": bound_why, "replay": rfile})
+            continue
         if reproduced:
+            nf = sorted({m for p_ in reproduced for m in (rp[p_].get("failed") or [])} |
+                        {"panic: " + rp[p_]["panicked"] for p_ in reproduced if rp[p_].get("panicked")})
             outs.append({"kind": "violation", "replay": rfile, "check": c["description"], "profiles": reproduced,
-                         "location": rec["location"], "native": rp})
+                         "location": rec["location"], "native_failed": nf, "native": rp})
         else:
             outs.append({"kind": "inconclusive", "why": "counterexample does not replay natively (%s)" % json.dumps(
                 {p: (o.get("exit"), o.get("failed"), o.get("panicked")) for p, o in rp.items()}), "replay": rfile,
@@ -578,7 +593,8 @@ def check_property(pid, tier, jobs):
         log("KNOWN-FINDING: property=%s %s [%s; harness %s]" % (pid, ent["what"], ent["id"], n))
     for n, o in violations:
         log("VIOLATION property=%s replay=%s" % (pid, o["replay"]))
-        log("  harness=%s check=%r at %s reproduced natively in %s" % (n, o["check"], o["location"], o["profiles"]))
+        log("  harness=%s check=%r at %s reproduced natively in %s: %s" % (n, o["check"], o["location"], o["profiles"],
+                                                                            "; ".join(o.get("native_failed", []))[:300]))
     for n, why in inconclusive:
         log("INCONCLUSIVE property=%s harness=%s: %s" % (pid, n, why))
     for n, st in stretch_skipped:
